@@ -29,6 +29,13 @@ except Exception:  # pragma: no cover - plain interpreter without crosshair
     class _SymInt:  # type: ignore
         pass
 
+try:
+    from crosshair.util import ControlFlowException as _CF, NotDeterministic as _ND
+    from crosshair.tracers import TraceException as _TE
+    CONTROL = (_CF, _ND, _TE)
+except Exception:  # pragma: no cover
+    CONTROL = ()
+
 from asyncio_taskpool import SimpleTaskPool, TaskPool  # noqa: E402
 from asyncio_taskpool.exceptions import PoolException  # noqa: E402
 from asyncio_taskpool.pool import BaseTaskPool  # noqa: E402
@@ -136,7 +143,11 @@ class World:
             self.loop = asyncio.SelectorEventLoop()
         else:
             self.loop = DetLoop()
-        self.loop.set_exception_handler(lambda l, c: None)
+        self._ctrl = None        # a CrossHair control-flow exception swallowed by asyncio (Task.__step / Handle._run)
+        self._tasks = []         # every task created on the loop
+        self._checked = 0
+        self.loop.set_exception_handler(self._exc_handler)
+        self.loop.set_task_factory(self._task_factory)
         events._set_running_loop(self.loop)
         self.loop._thread_id = threading.get_ident()
         self.open = OPEN_TRIGGERS
@@ -182,9 +193,39 @@ class World:
     def op(self, name, *operands):
         self.trace.append(name + "(" + ",".join(cstr(o) for o in operands) + ")")
 
+    # ------------------------------------------------------------------ CrossHair control flow
+    # asyncio turns *any* BaseException raised inside a task step or a callback into a task result /
+    # an exception-handler call.  CrossHair steers its search with BaseExceptions (IgnoreAttempt,
+    # UnexploredPath, ...): they must not be swallowed, so they are re-raised right after the iteration.
+    def _exc_handler(self, loop, ctx):
+        e = ctx.get("exception")
+        if CONTROL and isinstance(e, CONTROL) and self._ctrl is None:
+            self._ctrl = e
+
+    def _task_factory(self, loop, coro, **kw):
+        t = asyncio.Task(coro, loop=loop, **kw)
+        self._tasks.append(t)
+        return t
+
+    def _reraise_control(self):
+        if CONTROL:
+            pending = []
+            for t in self._tasks:
+                if not t.done():
+                    pending.append(t)
+                elif not t.cancelled():
+                    e = t.exception()
+                    if e is not None and isinstance(e, CONTROL) and self._ctrl is None:
+                        self._ctrl = e
+            self._tasks = pending
+        if self._ctrl is not None:
+            e, self._ctrl = self._ctrl, None
+            raise e
+
     # ------------------------------------------------------------------ stepping
     def step(self):
         self.loop._run_once()
+        self._reraise_control()
         self.iterations += 1
         for m in self.monitors:
             m()
@@ -435,14 +476,24 @@ class World:
                 raise Excluded("T1")
 
     def pending_spawner(self, pool) -> bool:
-        """T2 precondition: some apply/start spawner still has invocations to start."""
+        """T2 precondition: some apply/start spawner will call _start_task (and so re-check the lock) again:
+        it has not begun and num > 0, or its loop index i is below num - 1."""
         for tasks in pool._group_meta_tasks_running.values():
             for t in tasks:
-                if not t.done():
-                    co = t.get_coro()
-                    nm = getattr(co, "__name__", "")
-                    if nm in ("_apply_spawner", "_start_num"):
+                if t.done():
+                    continue
+                co = t.get_coro()
+                if getattr(co, "__name__", "") not in ("_apply_spawner", "_start_num"):
+                    continue
+                fr = co.cr_frame
+                if fr is None:
+                    continue
+                loc = fr.f_locals
+                if unstarted(t):
+                    if loc.get("num", 0) > 0:
                         return True
+                elif "i" in loc and loc["i"] < loc["num"] - 1:
+                    return True
         return False
 
     def t2_guard(self, pool):
